@@ -16,10 +16,10 @@ Environment assumptions (each is the guard of the step it restricts):
   instance is shut down — that escape hatch is the assumption.
 * **A2** (`poolRemove`): an instance that disappears from the cloud's list no longer exists.
   (`instCreate`): a new instance starts with an empty process table.
-* **A3** (`startDone`, `schedStart`): the completion closure of `startContainer` runs while the
-  worker is still busy with that start, i.e. `crunch-run --detach` returns before the started
-  process has been adopted by a probe *and* reported gone by a later one. (Otherwise the real
-  closure re-inserts a closed runner into an Idle worker and the next probe panics; notes O1.)
+* (A3 of earlier versions — "the completion closure of `startContainer` runs while the worker is
+  still busy with that start" — is no longer needed: since fix 18910db the closure does nothing
+  when its runner has left `wkr.starting`. `out i` keeps only the latest start command of a
+  worker; an older one whose worker went Idle has completed or will complete as a no-op.)
 * truthful probes (`probeSample`: the listed processes are those alive at one instant between
   the probe's begin and its application) and truthful kill (`killed`: `crunch-run --kill`
   reports success only when the process is gone).
@@ -127,11 +127,10 @@ inductive Step : PState → PState → Prop where
   | schedKillFalse (s : PState) (c : Uuid) (h1 : s.phase = .scheduling) (h2 : ∀ i, ¬ s.claims i c) :
       Step s { s with lastKillFalse := some c }
   /-- `StartContainer(c)` directly after `KillContainer(c) = false` (L1 `C14_start_only_locked`),
-  accepted by an Idle worker in run mode (L2 `C14_start_needs_idle_run`; A3: no completion
-  pending on an Idle worker) -/
+  accepted by an Idle worker in run mode (L2 `C14_start_needs_idle_run`) -/
   | schedStart (s : PState) (i : Nat) (c : Uuid) (w : Worker)
       (h1 : s.phase = .scheduling) (h2 : s.lastKillFalse = some c) (h3 : s.wk i = some w)
-      (h4 : w.state = .idle) (h5 : w.idleB = .run) (h6 : s.out i = none) :
+      (h4 : w.state = .idle) (h5 : w.idleB = .run) :
       Step s { s with wk := upd s.wk i (some (w.accept c)), out := upd s.out i (some (c, false)),
                       lastKillFalse := none }
   /-- any other scheduler call, or the end of a pass -/
@@ -142,9 +141,9 @@ inductive Step : PState → PState → Prop where
   | startExec (s : PState) (i : Nat) (c : Uuid) (b : Bool) (h1 : s.out i = some (c, false)) :
       Step s { s with out := upd s.out i (some (c, true)),
                       procs := if s.live i && b then upd s.procs i (sInsert (s.procs i) c) else s.procs }
-  /-- the completion closure of `startContainer` (A3: the worker is not Idle) -/
+  /-- the completion closure of `startContainer` (a no-op if its runner has left `starting`) -/
   | startDone (s : PState) (i : Nat) (c : Uuid) (w : Worker)
-      (h1 : s.out i = some (c, true)) (h2 : s.wk i = some w) (h3 : w.state ≠ .idle) :
+      (h1 : s.out i = some (c, true)) (h2 : s.wk i = some w) :
       Step s { s with wk := upd s.wk i (some (w.startDone c (s.clock + 1))), out := upd s.out i none,
                       clock := s.clock + 1 }
   /- ---- other pool steps ---- -/
